@@ -401,6 +401,54 @@ func driveLongValues(c *driverCtx, prop string) {
 		}
 	}
 	c.rec.Realised("len-3-bytes-values")
+	{
+		// attributes a reader may ignore -- aliases among them -- do not decide which target field a file field goes to:
+		// a file field the target has no field for (by its own name) is skipped
+		const aj = `{"type":"record","name":"AL","aliases":["Old"],"fields":[{"name":"customer_id","type":"long","aliases":["id"],"doc":"renamed"},{"name":"id","type":"long"},{"name":"name","type":"string","aliases":["label","z"],"default":""},{"name":"z","type":"long","order":"descending"}]}`
+		if an, err := schemaNodeFromJSON([]byte(aj)); err == nil {
+			var raw []byte
+			recs := make([]any, 3)
+			for k := range recs {
+				var b []byte
+				b = appendVar(b, int64(1000+k))
+				b = appendVar(b, int64(-7-k))
+				nm := text(3 + k)
+				b = appendVar(b, int64(len(nm)))
+				b = append(b, nm...)
+				b = appendVar(b, int64(50+k))
+				recs[k] = byteList(b)
+				raw = append(raw, b...)
+			}
+			for ti, t := range []reflect.Type{
+				reflect.TypeOf(struct {
+					ID int64 `json:"id"`
+					Z  int64 `json:"z"`
+				}{}),
+				reflect.TypeOf(struct {
+					Label string `json:"label"`
+					ID    int64  `json:"id"`
+				}{}),
+				reflect.TypeOf(struct {
+					Z     int64  `json:"z"`
+					Label string `json:"label"`
+				}{}),
+				reflect.TypeOf(struct {
+					CID  int64  `json:"customer_id"`
+					ID   int64  `json:"id"`
+					Name string `json:"name"`
+					Z    int64  `json:"z"`
+				}{}),
+			} {
+				codec := codecs3[ti%3]
+				file := buildContainer([]byte(aj), codec, true, []byte("0123456789abcdef"), [][2]any{{3, raw}})
+				r := readBack(t, file, readerKinds[ti%len(readerKinds)], ti%2 == 0, -1, nil)
+				c.rec.NewCase()
+				c.rec.Emit(fmt.Sprintf("%s|ignorable-attributes|target%d", prop, ti), map[string]any{
+					"op": "rand_read", "mode": prop, "schema": an, "records": recs, "target": projectType(t), "codec": codec,
+					"delivered": orEmpty(r.delivered), "recheck": orEmpty(r.recheck), "err": errString(r.err), "panic": r.panicked})
+			}
+		}
+	}
 	if prop == "C03" {
 		// one block that inflates to several MiB from a few KiB (any compression ratio is legal)
 		n := 4<<20 + 4096
